@@ -83,7 +83,8 @@ S_PROGRAMS = [
 ]
 P_PROGRAMS = ["pad", "trunc", "interp", "tab", "concat", "iseg", "rseg", "slide", "paa", "plateau",
               "dslope", "rife", "slope", "dwt", "hog", "pca", "s2s-cos", "s2p-mean", "sax", "sfa"]
-F_PROGRAMS = fmenu.BASIC + [["es"], ["theta", 3]] + fmenu.COMPOSITES[:9]
+F_PROGRAMS = fmenu.BASIC + [["es"], ["theta", 3]] + fmenu.COMPOSITES[:9] + [
+    ["naive-nan", "drift", 4], ["naive-nan", "mean", 3]]  # apply calls that FAIL half way
 C_PROGRAMS = ["tsf", "rise", "stsf", "iboss", "boss", "cboss", "muse", "cens", "tsfr"]
 SITES = ["ens_fit", "stack_fit", "tsf_fit_proba", "tsfr", "stsf", "rise", "grid", "boss", "cboss",
          "sfa", "fpe", "ets_auto", "iboss_ties", "boss_ties"]
@@ -433,8 +434,23 @@ def _apply_p(case, res):
 
 def _apply_f(case, res):
     spec = F_PROGRAMS[case["prog"]]
-    tag = "f:" + spec[0] + (":" + str(spec[1]) if spec[0] in ("naive", "red", "ens", "poly") else "")
+    tag = "f:" + spec[0] + (":" + str(spec[1]) if spec[0] in ("naive", "red", "ens", "poly",
+                                                               "naive-nan") else "")
     y = _series(20)
+    if spec[0] == "naive-nan":
+        from sktime.forecasting.naive import NaiveForecaster
+
+        # one missing value: in-sample forecasts whose window starts or ends on it raise, the
+        # moving-cutoff pass is abandoned half way; later calls must not notice
+        y.iloc[7] = np.nan
+        est = NaiveForecaster(strategy=spec[1], window_length=spec[2]).fit(y.copy())
+        menu = [("predict([1,2,3])", lambda e, a: e.predict([1, 2, 3])),
+                ("predict(all in-sample)", lambda e, a: e.predict(list(range(-14, 1)))),
+                ("predict([0])", lambda e, a: e.predict([0])),
+                ("predict([-9,2])", lambda e, a: e.predict([-9, 2]))]
+        res.outcome("apply:f:failing-calls")
+        _apply_case(res, tag, est, menu, lambda: (y.copy(),))
+        return
     req = fmenu.needs_fh_at_fit(spec)
     est = fmenu.build(spec)
     before = canon.digest(y)
